@@ -82,6 +82,11 @@ func buildProbe(t *rapid.T, x *c13Ctx, k int) *probe {
 	case 1:
 		return &probe{Name: "unknown frame type on an open stream", Kind: "legal", Frames: []Frame{{Type: 0x77, Stream: x.open, Flags: 0xff, Payload: []byte{9}}}}
 	case 2:
+		if drawBool(t, "settingsedge", 50) {
+			// the ends of the legal ranges of the known ids (RFC 9113 6.5.2)
+			edge := []Setting{{5, 16384}, {5, 1<<24 - 1}, {2, 0}, {2, 1}, {3, 0}, {3, 0xffffffff}, {1, 0}, {1, 0xffffffff}, {6, 0xffffffff}, {8, 0}, {8, 1}}[rapid.IntRange(0, 10).Draw(t, "settingsedgev")]
+			return &probe{Name: fmt.Sprintf("SETTINGS with a value at the end of its legal range %v", edge), Kind: "legal", Frames: []Frame{SettingsFrame(edge)}}
+		}
 		return &probe{Name: "SETTINGS with unknown ids", Kind: "legal", Frames: []Frame{SettingsFrame(Setting{0x99, 7}, Setting{0xff00, 0xffffffff})}}
 	case 3:
 		d := [8]byte{1, 3, 3, 7, 0, 0, byte(x.ntag), 9}
@@ -110,11 +115,18 @@ func buildProbe(t *rapid.T, x *c13Ctx, k int) *probe {
 		tag := x.tag()
 		fs := HeadersFrames(id, x.enc.Block(x.fields(tag, "POST", [2]string{"trailer", "x-t"})), false, nil, -1, nil)
 		fs = append(fs, DataFrame(id, []byte("body-of-"+tag), false, -1))
-		fs = append(fs, HeadersFrames(id, x.enc.Block([][2]string{{"x-t", "1"}}), true, nil, -1, nil)...)
+		name := "request with body and trailers"
+		if drawBool(t, "emptytrailers", 35) {
+			// an empty trailer section: a HEADERS frame with an empty header block ends the stream
+			name = "request with body and an empty trailer section"
+			fs = append(fs, HeadersFrames(id, nil, true, nil, -1, nil)...)
+		} else {
+			fs = append(fs, HeadersFrames(id, x.enc.Block([][2]string{{"x-t", "1"}}), true, nil, -1, nil)...)
+		}
 		if x.hold {
 			x.resp[tag] = &RespPlan{Status: 200, Body: []byte("ok:" + tag), Park: true}
 		}
-		return &probe{Name: "request with body and trailers", Kind: "legal", Frames: fs, GoodTag: tag}
+		return &probe{Name: name, Kind: "legal", Frames: fs, GoodTag: tag}
 	case 13:
 		id := x.newID()
 		tag := x.tag()
